@@ -49,9 +49,38 @@ class Opaque:
         return "Opaque()"
 
 
+class _StrTag(str, __import__("enum").Enum):
+    "Members are strings (the mix-in idiom for collection names); str() of one is NOT its value."
+    A = "tagA"
+    B = "tagB"
+    X = "x"
+
+
+class _Level(int, __import__("enum").Enum):
+    "Members are ints; repr() of one is not a literal."
+    L0 = 0
+    L2 = 2
+    L17 = 17
+
+
+class _GeV(float):
+    "A float subclass with a unit in its text."
+
+    def __repr__(self):
+        return f"{float(self)} GeV"
+
+    __str__ = __repr__
+
+
 def decode(v):
     "JSON-able value spec -> Python value."
     k = v[0]
+    if k == "strenum":
+        return _StrTag(v[1])
+    if k == "intenum":
+        return _Level(v[1])
+    if k == "gev":
+        return _GeV(v[1])
     if k in ("int", "float", "str", "bool"):
         return {"int": int, "float": float, "str": str, "bool": bool}[k](v[1])
     if k == "bytes":
@@ -70,7 +99,7 @@ def decode(v):
 
 
 def transportable(v) -> bool:
-    return v[0] in ("int", "float", "str", "bool", "bytes", "none")
+    return v[0] in ("int", "float", "str", "bool", "bytes", "none", "strenum", "intenum", "gev")
 
 
 def is_none(v) -> bool:
